@@ -186,6 +186,7 @@ func runC10(c *ev.Ctx) {
 	c10UnconfirmedFids(c)
 	c10RefusedUnbind(c)
 	c10LateReplies(c)
+	c10SendFailsAfterDelivery(c)
 }
 
 // (1) reply permutations.
